@@ -110,6 +110,17 @@ def edit_column(sql, column, how):
                 rest = re.sub(r"DEFAULT\s+(\([^)]*\)|'[^']*'|\S+)", "DEFAULT 77", rest, flags=re.I)
             else:
                 rest = rest.rstrip() + " DEFAULT 77 "
+        elif how == "default_requote":
+            # the same default text under different quoting: [0] / "0" / '0' / (0) -> 0, and bare 0 -> '0'
+            m = re.search(r"DEFAULT\s+(\([^)]*\)|'[^']*'|\"[^\"]*\"|\[[^\]]*\]|`[^`]*`|\S+)", rest, re.I)
+            if not m:
+                return None
+            tok = m.group(1)
+            inner = tok[1:-1] if tok[0] in "([\"'`" and len(tok) >= 2 else None
+            new = inner if inner else "'" + tok + "'"
+            if not new.strip() or new == tok:
+                return None
+            rest = rest[:m.start(1)] + new + rest[m.end(1):]
         elif how == "default_remove":
             if not re.search(r"DEFAULT\s+", rest, re.I):
                 return None
@@ -136,7 +147,7 @@ def enumerate_mutations(path):
             name = c[0]
             muts.append(("drop_column", t, name))
             muts.append(("rename_column", t, name))
-            for how in ("type", "type_case", "type_prefix", "notnull", "default", "default_remove", "pk"):
+            for how in ("type", "type_case", "type_prefix", "notnull", "default", "default_remove", "default_requote", "pk"):
                 muts.append(("edit_column", t, name, how))
     for v in sig["views"]:
         muts.append(("drop_view", v))
@@ -297,7 +308,7 @@ def _confined(before, after, m):
                 return False
         if len(bt[t]) != len(at[t]):
             return False
-        idx = {"type": 1, "type_case": 1, "type_prefix": 1, "notnull": 2, "default": 3, "default_remove": 3, "pk": 4}[how]
+        idx = {"type": 1, "type_case": 1, "type_prefix": 1, "notnull": 2, "default": 3, "default_remove": 3, "default_requote": 3, "pk": 4}[how]
         changed = False
         for x, y in zip(bt[t], at[t]):
             if x == y:
